@@ -19,13 +19,12 @@ func init() {
 				bounds := thin(rangeSafe(eco, all), 4)
 				var rs []string
 				if len(bounds) > 0 {
-					rs = append(rs, comparatorRanges(eco, bounds)...)
+					rs = append(rs, thin(comparatorRanges(eco, bounds), nr/2)...)
 				}
-				rs = append(rs, shorthandRanges(eco)...)
-				rs = thin(rs, nr)
-				vs := thin(all, nv)
-				// add spelling variants that can compare equal to the first templates
-				vt := thin(all, nt)
+				rs = append(rs, thin(shorthandRanges(eco), nr)...)
+				vs := pick(eco, all, nv-2)
+				// spelling variants that can compare equal (1 / 1.0 / 1.0.0) are in the must-have set
+				vt := pick(eco, all, nt-2)
 				for _, r := range rs {
 					if eco == "pypi" && len(r) >= 3 && r[:3] == "===" {
 						continue
